@@ -400,6 +400,111 @@ func discoverRoundCase(c *vlib.Cases, pf *profile.Factory, workers int, classes 
 	c.Emit(map[string]any{"kind": "discover-round", "workers": workers, "classes": classes, "impl": map[string]any{"rounds": out}})
 }
 
+// discoverOverlapCase: one endpoint keeps answering its listing request with garbage, the others answer well; whole
+// rounds (DiscoverAll, the periodic loop) overlap with single-endpoint refreshes (DiscoverEndpoint, what the health
+// checker's recovery hook runs).  Nothing may wedge: every call returns, and afterwards a listing change of a good
+// endpoint is taken up.
+func discoverOverlapCase(c *vlib.Cases, pf *profile.Factory, n, iterations int) {
+	log := vlib.QuietLogger()
+	bes := make([]*stack.Backend, n)
+	var mu sync.Mutex
+	gen := 0
+	var cfgs []config.EndpointConfig
+	for i := 0; i < n; i++ {
+		i := i
+		bes[i] = stack.NewBackend(fmt.Sprintf("O%d", i))
+		defer bes[i].Close()
+		bes[i].Listing = func(string) (int, string) {
+			if i == 0 {
+				return 200, "<html>502 Bad Gateway</html>"
+			}
+			mu.Lock()
+			defer mu.Unlock()
+			return 200, string(listingFor("openai", []string{fmt.Sprintf("m%d-g%d", i, gen)}, nil))
+		}
+		pr := 100 - i
+		cfgs = append(cfgs, config.EndpointConfig{URL: bes[i].URL(), Name: bes[i].Name, Type: "openai", Priority: &pr,
+			HealthCheckURL: "/health", ModelURL: "/v1/models", CheckInterval: 5 * time.Second, CheckTimeout: 2 * time.Second})
+	}
+	repo := discovery.NewStaticEndpointRepositoryWithFactory(pf)
+	if err := repo.LoadFromConfig(context.Background(), cfgs); err != nil {
+		c.Emit(map[string]any{"kind": "discover-overlap", "n": n, "impl": map[string]any{"setup_err": err.Error()}})
+		return
+	}
+	eps, _ := repo.GetAll(context.Background())
+	for _, e := range eps {
+		cp := *e
+		cp.Status = domain.StatusHealthy
+		repo.UpdateEndpoint(context.Background(), &cp)
+	}
+	eps, _ = repo.GetAll(context.Background())
+	var reg domain.ModelRegistry = registry.NewUnifiedMemoryModelRegistry(log, &config.UnificationConfig{Enabled: true, CacheTTL: time.Minute}, nil, nil)
+	client := discovery.NewHTTPModelDiscoveryClientWithDefaults(pf, log)
+	svc := discovery.NewModelDiscoveryService(client, repo, reg, discovery.DiscoveryConfig{Interval: time.Hour, Timeout: 3 * time.Second, ConcurrentWorkers: 2, RetryAttempts: 1, RetryBackoff: time.Millisecond}, log)
+	vlib.Breadcrumb(map[string]any{"kind": "discover-overlap", "n": n, "iterations": iterations})
+	stuck := ""
+	// refreshers: every endpoint is re-discovered over and over (recovery hooks), each completion writes the service's
+	// failure bookkeeping; meanwhile whole rounds run one after the other
+	var halt atomic.Bool
+	var rwg sync.WaitGroup
+	bg, cancelBg := context.WithCancel(context.Background())
+	for _, e := range eps {
+		e := e
+		rwg.Add(1)
+		go func() {
+			defer rwg.Done()
+			for !halt.Load() {
+				_ = svc.DiscoverEndpoint(bg, e)
+			}
+		}()
+	}
+	for it := 0; it < iterations && stuck == ""; it++ {
+		mu.Lock()
+		gen = it
+		mu.Unlock()
+		done := make(chan struct{})
+		ctx, cancel := context.WithTimeout(context.Background(), 8*time.Second)
+		go func() { _ = svc.DiscoverAll(ctx); close(done) }()
+		select {
+		case <-done:
+		case <-time.After(5 * time.Second):
+			stuck = fmt.Sprintf("round %d (DiscoverAll) had not returned after 5 s while single-endpoint refreshes were running", it)
+		}
+		cancel()
+	}
+	halt.Store(true)
+	stopped := make(chan struct{})
+	go func() { rwg.Wait(); close(stopped) }()
+	select {
+	case <-stopped:
+	case <-time.After(5 * time.Second):
+		if stuck == "" {
+			stuck = "the single-endpoint refreshes had not returned 5 s after the last round"
+		}
+	}
+	cancelBg()
+	if stuck == "" { // one quiet round so that the last listings are the ones in the catalogue
+		_ = svc.DiscoverAll(context.Background())
+	}
+	taken := true
+	if stuck == "" {
+		time.Sleep(30 * time.Millisecond)
+		for i := 1; i < n; i++ {
+			var u string
+			for _, e := range eps {
+				if e.Name == bes[i].Name {
+					u = e.URLString
+				}
+			}
+			ms, _ := reg.GetModelsForEndpoint(context.Background(), u)
+			if len(ms) != 1 || ms[0].Name != fmt.Sprintf("m%d-g%d", i, iterations-1) {
+				taken = false
+			}
+		}
+	}
+	c.Emit(map[string]any{"kind": "discover-overlap", "n": n, "iterations": iterations, "impl": map[string]any{"stuck": stuck, "last_listing_taken_up": taken}})
+}
+
 var namePool = []string{"llama3:8b", "llama3:70b", "phi4:latest", "Qwen2.5-Coder", "mistral", "a::b", "x*", "gemma2:9b",
 	// names a backend is free to use: namespaces, hub prefixes, non-ASCII letters whose case mappings change length
 	"hf.co/unsloth/Qwen3-32B-GGUF", "ȺȺȺ/m", "hf.co/ȺȾȺȾ/q", "İstanbul/model:İ", "模型/七", "ǅ/ǆ", "ﬁne/ﬂ", "a/b/c/d", "/", "//x", "org/", ":tag", "e\u0301/e\u0301"}
@@ -670,6 +775,8 @@ func main() {
 			c.Count("discover-round")
 		}
 	}
+	discoverOverlapCase(c, pf, 4, map[bool]int{false: 150, true: 1500}[thorough])
+	c.Count("discover-overlap")
 	discoverCase(c, pf, "openai", []round{{"good", []string{"a", "b"}}, {"garbage", nil}, {"truncated", []string{"c"}}, {"http500", nil}, {"emptylist", []string{}}, {"good", []string{"c"}}})
 	discoverCase(c, pf, "ollama", []round{{"good", []string{"x", "y"}}, {"nameless", []string{"", "z"}}, {"dup", []string{"z", "z", "w"}}, {"wrongtype", nil}, {"emptybody", nil}})
 	discoverCase(c, pf, "openai", []round{{"good", []string{"a"}}, {"oversized", []string{"big"}}, {"good", []string{"b"}}})
